@@ -4010,29 +4010,3 @@ fn run_part_c(ctx: &mut Ctx, r: &mut Rng, n: u64) {
         }
     }
 }
-
-#[test]
-fn dbg_probe() {
-    if std::env::var("VERIF_DEBUG").is_err() {
-        return;
-    }
-    use packet::flowspec::*;
-    let mut ops: Vec<Op> = (0..300).map(|_| Op { bits: 1, value: u64::MAX }).collect();
-    ops.last_mut().unwrap().bits = 0x81;
-    let n = Nlri::FlowspecV4(FlowspecV4Nlri { components: vec![FlowspecV4Component::DstPort(ops)] });
-    let msg = bgp::Message::Update(bgp::Update::Reach {
-        family: Family::IPV4_FLOWSPEC,
-        entries: vec![PathNlri { path_id: 0, nlri: n.clone() }],
-        nexthop: None,
-        attr: Arc::new(base_attrs()),
-    });
-    let mut c = new_codec(false);
-    let mut buf = bytes::BytesMut::new();
-    let r = c.encode_to(&msg, &mut buf);
-    eprintln!("encode {:?} len {}", r.is_ok(), buf.len());
-    eprintln!("head {}", hex(&buf[..60.min(buf.len())]));
-    let parts = split_messages(&buf);
-    eprintln!("parts {}", parts.len());
-    let mut c2 = new_codec(false);
-    eprintln!("{:?}", decode_update(&mut c2, parts[0]).map(|d| d.entries.len()));
-}
